@@ -211,6 +211,11 @@ pub fn ref_validate_public_input(pi: &PublicInput, layout: &str, log_trace: &Fel
     if big(&o.stop_ptr) < big(&o.begin_addr) {
         return Verdict3::NotStated("negative output size".into());
     }
+    // (the code also refuses output sizes of 2^128 cells and more; no memory holds 2^64 cells, and
+    // the property lists no clause about the output size: not stated either way)
+    if big(&o.stop_ptr) - big(&o.begin_addr) >= (BigUint::from(1u32) << 64) {
+        return Verdict3::NotStated("output size beyond any memory".into());
+    }
     match not_stated {
         Some(w) => Verdict3::NotStated(w),
         None => Verdict3::MustAccept,
